@@ -225,7 +225,7 @@ func renderEdit(toks []string) string {
 				sb.WriteString(" ")
 			}
 		}
-		sb.WriteString(t)
+		sb.WriteString(strings.NewReplacer("U1", "\u00ea", "U4", "\xe9").Replace(t)) // (tokens aU1 / TU1 / aU4: names with a non-ASCII letter)
 	}
 	return sb.String()
 }
